@@ -23,6 +23,9 @@ Lemma ex_valid : cfg_valid cfg2 = true /\ ops_valid cfg2 init_mstate ex_ops = tr
                  linear_fresh cfg2 init_mstate ex_ops = true.
 Proof. vm_compute. auto. Qed.
 
+Lemma ex_changing : linear_changing cfg2 init_mstate ex_ops = true.
+Proof. vm_compute. reflexivity. Qed.
+
 (** pruning really deletes: the versions of heights 1..3 are gone, the three
     live versions (heights 5..7, commits 4..6) read their values *)
 Lemma ex_pruned :
